@@ -459,11 +459,25 @@ class Ops:
             return SBool(VAL.vb(raw))
         return SVal(raw)
 
+    def decide(self, c):
+        """True / False when the path condition settles c, else None."""
+        c = z3.simplify(c)
+        if z3.is_true(c):
+            return True
+        if z3.is_false(c):
+            return False
+        if self.st.valid(c):
+            return True
+        if self.st.valid(z3.Not(c)):
+            return False
+        return None
+
     def dict_set(self, d: SDict, k: V, v: V):
         rec = self.st.dicts[d.did]
         if rec.kind == "conc":
             for i, (kk, _vv) in enumerate(rec.items):
-                c = z3.simplify(self.eq(kk, k))
+                dec = self.decide(self.eq(kk, k))
+                c = TRUE if dec is True else (FALSE if dec is False else self.eq(kk, k))
                 if z3.is_true(c):
                     rec.items[i] = (kk, v)
                     return
